@@ -11,6 +11,7 @@ package otr3
 import (
 	"math/big"
 	"reflect"
+	"strings"
 	"time"
 	"unsafe"
 )
@@ -325,7 +326,8 @@ func verifWalk(v reflect.Value, path string, visit func(string, []byte), seen ma
 		for i := 0; i < v.NumField(); i++ {
 			f := v.Field(i)
 			name := v.Type().Field(i).Name
-			if name == "Rand" {
+			if name == "Rand" || strings.HasSuffix(name, "Handler") {
+				// supplied by the user of the library, not part of the conversation's own state
 				continue
 			}
 			if f.CanAddr() {
